@@ -18,6 +18,15 @@
 #include "UpperHessenbergQR.h"
 #include "DoubleShiftQR.h"
 
+#ifdef SPECTRA_VERIF
+// Verification hooks (off unless SPECTRA_VERIF is defined): an observer macro called where the
+// factorization is passed on, and friend access for a harness-defined struct. Observers only read.
+struct SpectraVerifAccess;
+#ifndef SPECTRA_VERIF_FAC_HOOK
+#define SPECTRA_VERIF_FAC_HOOK(point, fac, k) ((void) 0)
+#endif
+#endif
+
 namespace Spectra {
 
 // Arnoldi factorization A * V = V * H + f * e'
@@ -30,6 +39,10 @@ namespace Spectra {
 template <typename Scalar, typename ArnoldiOpType>
 class Arnoldi
 {
+#ifdef SPECTRA_VERIF
+    friend struct ::SpectraVerifAccess;
+#endif
+
 private:
     // The real part type of the matrix element
     using RealScalar = typename Eigen::NumTraits<Scalar>::Real;
@@ -106,8 +119,16 @@ protected:
             // If the condition is satisfied, simply return
             // Otherwise, go to the next iteration and try a new random vector
             if (ortho_err < m_eps * fnorm)
+            {
+#ifdef SPECTRA_VERIF
+                SPECTRA_VERIF_FAC_HOOK("breakdown", *this, V.cols());
+#endif
                 return;
+            }
         }
+#ifdef SPECTRA_VERIF
+        SPECTRA_VERIF_FAC_HOOK("breakdown-unresolved", *this, V.cols());
+#endif
     }
 
 public:
@@ -177,6 +198,9 @@ public:
 
         // Indicate that this is a step-1 factorization
         m_k = 1;
+#ifdef SPECTRA_VERIF
+        SPECTRA_VERIF_FAC_HOOK("init", *this, m_k);
+#endif
     }
 
     // Arnoldi factorization starting from step-k
@@ -277,6 +301,9 @@ public:
 
         // Indicate that this is a step-m factorization
         m_k = to_m;
+#ifdef SPECTRA_VERIF
+        SPECTRA_VERIF_FAC_HOOK("extend", *this, m_k);
+#endif
     }
 
     // Apply H -> Q'HQ, where Q is from a double shift QR decomposition
@@ -321,6 +348,9 @@ public:
         Vector fk = m_fac_f * Q(m_m - 1, m_k - 1) + m_fac_V.col(m_k) * m_fac_H(m_k, m_k - 1);
         m_fac_f.swap(fk);
         m_beta = m_op.norm(m_fac_f);
+#ifdef SPECTRA_VERIF
+        SPECTRA_VERIF_FAC_HOOK("compress", *this, m_k);
+#endif
     }
 };
 
